@@ -1,7 +1,7 @@
 (* C20/Examples.v — worked examples of XEP-0115 and non-vacuity of the
    hypotheses used in Properties.v. *)
 From Coq Require Import Sorting.Permutation.
-From XV Require Import lib.Bytes gen.DiscoCaps C20.Model C20.Spec C20.Proofs.
+From XV Require Import lib.Bytes gen.DiscoCaps C20.Model C20.Spec C20.Proofs C20.TailModel C20.TailProofs.
 
 Definition feats_xep : list bytes :=
   [str "http://jabber.org/protocol/disco#info"; str "http://jabber.org/protocol/caps";
@@ -116,3 +116,73 @@ Proof. vm_compute. repeat split; reflexivity. Qed.
 Example ex_append :
   append_hash (fun s => s) (str "ab") (mkinfo [] [str "c"] []) = Ok (b64enc (str "abc<")).
 Proof. vm_compute. reflexivity. Qed.
+
+(* ---- the destination as a slice on a heap (TailModel.v) ---- *)
+
+Definition ex_i : info := mkinfo [] [str "c"] [].      (* S = "c<" *)
+Definition no_slack : nat -> nat := fun _ => 0.
+Definition out_of (r : tres) : option bytes := match r with TOk h o => Some (read h o) | _ => None end.
+
+(* an empty destination with 64 bytes of spare capacity holding junk: a valid
+   window, and the digest (20 bytes) as well as its base64 (28 bytes) would fit *)
+Definition ex_buf : bytes := repeat "x"%byte 64.
+Definition ex_dst : slice := mkslice 0 0 0 64.
+Example ex_dst_valid : valid [ex_buf] ex_dst /\ s_len ex_dst = 0 /\ enclen 20 <= s_cap ex_dst.
+Proof. vm_compute. repeat split; lia. Qed.
+
+Example ex_spare_capacity :
+  out_of (append_hash_heap no_slack (fold_hash 20) [ex_buf] ex_dst ex_i)
+    = Some (b64enc (fold_hash 20 (str "c<"))) /\
+  hash_heap no_slack (fold_hash 20) [ex_buf] ex_i = HOk (b64enc (fold_hash 20 (str "c<"))) /\
+  length (b64enc (fold_hash 20 (str "c<"))) = 28.
+Proof. vm_compute. repeat split; reflexivity. Qed.
+
+(* a non-empty destination in the middle of an array that another slice shares:
+   the prefix is kept, the digest lands in the spare capacity, the other slice
+   (which does not reach into it) reads the same *)
+Definition ex_mid : slice := mkslice 0 10 2 30.
+Definition ex_other : slice := mkslice 0 0 10 10.
+Example ex_shared :
+  match append_hash_heap no_slack (fun s => s) [ex_buf] ex_mid ex_i with
+  | TOk h' out => read h' out = b64enc (str "xxc<") /\ read h' ex_mid = str "xx" /\
+                  read h' ex_other = read [ex_buf] ex_other /\ ~ overlaps_spare ex_other ex_mid /\
+                  sub (arr h' 0) 12 2 = str "c<"
+  | _ => False
+  end.
+Proof.
+  vm_compute. repeat split; try reflexivity. intros [_ [p [A B]]]. lia.
+Qed.
+
+(* a history on one buffer: r1 = AppendHash(buf[:0]); r2 = AppendHash(r1[:0]) (the
+   result reused as the next destination); r3 = AppendHash(buf[:3]) *)
+Example ex_history :
+  let '(rs, _, _) := run_calls no_slack (fold_hash 20) [ex_buf] [ex_dst]
+                       [mkcall 0 0 0 ex_i; mkcall 1 0 0 ex_i; mkcall 0 0 3 ex_i] in
+  map (fun r => match r with CallOk dc _ out => Some (dc, out) | _ => None end) rs =
+  let hsh := b64enc (fold_hash 20 (str "c<")) in
+  [Some ([], hsh); Some ([], hsh); Some (firstn 3 (fold_hash 20 (str "c<")), b64enc (firstn 3 (fold_hash 20 (str "c<")) ++ fold_hash 20 (str "c<")))].
+Proof. vm_compute. reflexivity. Qed.
+
+(* The theorems are about the tail as it is in the source, not about every tail:
+   a tail that takes its output buffer from the destination when the capacity
+   suffices (Encode then reads cells it has already overwritten) returns
+   something else for exactly the destinations with enough spare capacity. *)
+Definition tail_reusing_dst : list t_stmt :=
+  [TAssign 1 (TSum (TVar 0)); TAssignInt 0 (TEncLen (TLen 1));
+   TAssign 2 (TReslice (TVar 0) None (Some (TLit 0)));
+   TIf (TCmp CLt (TCap 2) (TIntVar 0)) [TAssign 2 (TMake (TIntVar 0) None)] [];
+   TAssign 2 (TReslice (TVar 2) None (Some (TIntVar 0)));
+   TEncode (TVar 2) (TVar 1); TReturn (TVar 2)]%N.
+
+Example ex_reusing_dst_garbles :
+  let dg := fold_hash 20 (str "c<") in
+  out_of (run_tail no_slack dg tail_reusing_dst [ex_buf] ex_dst) <> Some (b64enc dg) /\
+  out_of (run_tail no_slack dg tail_reusing_dst [repeat "x"%byte 27] (mkslice 0 0 0 27)) = Some (b64enc dg) /\
+  out_of (run_tail no_slack dg tail_reusing_dst [] nil_slice) = Some (b64enc dg) /\
+  out_of (run_tail no_slack dg caps_tail [ex_buf] ex_dst) = Some (b64enc dg).
+Proof. vm_compute. repeat split; try reflexivity. intro E. discriminate E. Qed.
+
+(* the fixed-size hash of the correspondence *)
+Example ex_fold_hash : fold_hash 4 (str "abcdef") = [byte_of_N (0 + 97 + 101); byte_of_N (1 + 98 + 102); byte_of_N (2 + 99); byte_of_N (3 + 100)]
+  /\ length (fold_hash 20 []) = 20 /\ hfun 0 (str "ab") = str "ab".
+Proof. vm_compute. repeat split; reflexivity. Qed.
